@@ -63,7 +63,7 @@ using namespace opensmt::tokens;
 %%
 
 \;.*                         // Eat comments
-[ \t\n]+                     // Eat spaces
+[ \t\n\r]+                   // Eat spaces (a carriage return is white space in SMT-LIB)
 
 "!"        { return *yyget_text(yyscanner);                                                   }
 "_"        { return *yyget_text(yyscanner);                                                   }
